@@ -61,7 +61,9 @@ with DSrcClauses : list token -> list (range * allot * source) -> Prop :=
 Inductive DDest : list token -> dest -> Prop :=
 | DD_account ts e : DExpr ts e -> DDest ts (DAccount e)
 | DD_inorder lb tcl cl rm tk rem rb :
-    is_kind TLBrace lb -> DInClauses tcl cl -> is_kind TRemaining rm -> DKod tk rem -> is_kind TRBrace rb ->
+    (* `{ remaining ... }` with no `max` clause is read by the first alternative, destAllotment (an
+       allotment whose only portion is `remaining`): destInorder has at least one clause *)
+    is_kind TLBrace lb -> DInClauses tcl cl -> cl <> [] -> is_kind TRemaining rm -> DKod tk rem -> is_kind TRBrace rb ->
     DDest (lb :: tcl ++ rm :: tk ++ [rb]) (DInorder (span (tok_range lb) (tok_range rb)) cl rem)
 | DD_allot lb tcs items rb :
     is_kind TLBrace lb -> DDstClauses tcs items -> items <> [] -> is_kind TRBrace rb ->
